@@ -115,7 +115,7 @@ def truncated_svd(
         w, v = torch.linalg.eigh(gram)
         if verbose:
             print("Time (symmetric EIG):", time.time() - start)
-        w = torch.where(w < 0, torch.zeros_like(w) + 1e-8, w)
+        w = torch.clamp(w, min=0)  # Round-off can make tiny eigenvalues negative
         w = torch.sqrt(w)
         svd = [v, w]
         # Sort eigenvalues and eigenvectors in decreasing importance
